@@ -203,8 +203,11 @@ def check_case(x, NW, k, nfft, method, sbf=False, fs=1.0, tag='', parts=('pmtm',
     # class
     if 'class' in parts:
         try:
-            p = MultiTapering(x, NW=NW, k=k, NFFT=nfft, method=method, scale_by_freq=sbf, sampling=fs)
-            p()
+            from props import _estimators as E
+            route, _ = E.route_for(x, NW, k, nfft, method, sbf)
+            p = E.via(lambda d, n, s_, b: MultiTapering(d, NW=NW, k=k, NFFT=n, method=method, scale_by_freq=b, sampling=s_), x, nfft, fs, sbf, route)
+            if route == 'fresh':
+                p()
             psd = np.asarray(p.psd)
         except Exception as e:  # noqa
             bad.append(('class_raises/MultiTapering/' + kind, 'MultiTapering raised %r' % (e,)))
